@@ -502,6 +502,46 @@ pub fn run(tier: Tier) -> i32 {
         });
     }
 
+    // the constructors behind the readers: a value count that is not the product of the shape is an
+    // error for every one of them, whatever way the values arrive
+    {
+        use sfs_core::Scs;
+        let mut shapes_c: Vec<Vec<usize>> = crate::enumerate::shapes(3, 1, 4, usize::MAX);
+        shapes_c.extend([vec![], vec![0], vec![2, 0], vec![0, 3], vec![1, 1, 1, 1]]);
+        let mut n = 0u64;
+        for sh in &shapes_c {
+            let product: usize = sh.iter().product();
+            let mut counts = vec![product, product + 1, product + 7, 2 * product + 1, product.saturating_sub(1), 0];
+            counts.sort();
+            counts.dedup();
+            for count in counts {
+                n += 1;
+                let want_ok = count == product;
+                let r = catch(|| {
+                    let a = Array::new(vec![0.5f64; count], sh.clone()).is_ok();
+                    let b = Array::from_iter((0..count).map(|i| i as f64), sh.clone()).is_ok();
+                    let c = Scs::new(vec![0.5f64; count], sh.clone()).is_ok();
+                    let d = Scs::from_range(0..count, sh.clone()).is_ok();
+                    (a, b, c, d)
+                });
+                if !matches!(r, Ok((a, b, c, d)) if a == want_ok && b == want_ok && c == want_ok && d == want_ok) {
+                    rep.violation(
+                        format!("C16|lib|constructor-count|{}", if sh.is_empty() { "no-axes" } else if count > product { "surplus" } else { "other" }),
+                        format!("{count} values for shape {sh:?} (product {product}): Array::new / Array::from_iter / Scs::new / Scs::from_range accepted = {r:?}, expected all {want_ok}"),
+                        J::obj([("kind", J::s("c16-constructor")), ("shape", J::usizes(sh)), ("count", J::u(count))]),
+                    );
+                }
+            }
+        }
+        rep.part(Part {
+            name: "lib: constructors count their values".into(),
+            evaluations: n,
+            nontrivial: n,
+            note: format!("{} shapes (1..3 axes of lengths 1..4, no axes, zero-length axes) x value counts {{product, +1, +7, 2x+1, -1, 0}}: Array::new, Array::from_iter, Scs::new and Scs::from_range accept exactly the product", shapes_c.len()),
+            exhaustive: true,
+            extra: vec![],
+        });
+    }
     // file-size ladder: valid files whose length sits at, just below and just above a power of two
     // (buffer sizes, read limits), each with bytes appended or cut off
     {
